@@ -1530,9 +1530,15 @@ class EOM:
 
         # If the minimum is positive, there are no roots and we return the
         # minimum's position
-        if self.temperatureProfileEqLHS(fields, dPhidz, minRes.x, s1, s2) >= 0:
+        lhsAtMinimum = self.temperatureProfileEqLHS(fields, dPhidz, minRes.x, s1, s2)
+        if lhsAtMinimum >= 0:
             T = minRes.x
             vPlasma = self.plasmaVelocity(fields, T, s1)
+            # T33 cannot be conserved at this point. The minimum only counts as a
+            # solution if it misses zero by less than the tolerance used for the roots.
+            enthalpy = -T * self.thermo.effectivePotential.derivT(fields, T)
+            if lhsAtMinimum > self.errTol / 10 * (abs(c2) + abs(float(enthalpy))):
+                self.successTemperatureProfile = False
             return T, vPlasma
 
         # Bracketing the root
